@@ -26,6 +26,16 @@ def cases(tier='quick'):
     out += [('BeliefPropagationOSDDecoder', 'Toric2DCode', (3, 3), 'XZZX', {}), ('BeliefPropagationOSDDecoder', 'Toric2DCode', (2, 3), 'XY', {}),
             ('BeliefPropagationOSDDecoder', 'Planar3DCode', (2, 2, 2), 'XZZX', {}), ('BeliefPropagationOSDDecoder', 'RhombicToricCode', (2, 2, 2), 'Checkerboard XZZX', {}),
             ('MemoryBeliefPropagationDecoder', 'Toric2DCode', (2, 2), 'XZZX', {})]
+    # BP-OSD and MBP declare support for every code: every class at its smallest supported size, every deformation
+    from .util import all_code_classes, small_sizes, deformation_variants
+    for name, cls in all_code_classes():
+        sizes = small_sizes(cls, name, 200, 3)
+        if not sizes:
+            continue
+        size = sorted(sizes, key=lambda s_: (cls(*s_).n))[0] if False else sizes[0]
+        for defo, kw in deformation_variants(cls)[: (3 if not big else 9)]:
+            if not any(o[0] == 'BeliefPropagationOSDDecoder' and o[1] == name and o[3] == defo for o in out):
+                out.append(('BeliefPropagationOSDDecoder', name, size, defo, kw))
     if big:
         out += [('BeliefPropagationOSDDecoder', 'Toric3DCode', (3, 3, 3), 'XZZX', {}), ('BeliefPropagationOSDDecoder', 'HollowRhombicCode', (2, 2, 3), None, {}),
                 ('BeliefPropagationOSDDecoder', 'Color3DCode', (2, 2, 2), None, {}), ('MatchingDecoder', 'Toric2DCode', (6, 6), None, {}), ('UnionFindDecoder', 'Toric2DCode', (6, 7), None, {})]
